@@ -65,6 +65,15 @@ type Violation struct {
 	AltModels []map[string]string `json:"alt_models,omitempty"`
 	Now    string            `json:"now,omitempty"`
 }
+// ResumeEv: a goroutine parked at a yield is resumed; for lazily parked ones the context is recorded so that
+// the native replay releases it in the same situation (other goroutines parked at these labels, this instant)
+type ResumeEv struct {
+	Label  string   `json:"label"`
+	Lazy   bool     `json:"lazy,omitempty"`
+	Parked []string `json:"parked,omitempty"`
+	At     int64    `json:"at"` // virtual ns since the start, -1 when the clock is symbolic here
+}
+
 type SchedEv struct {
 	Thread string `json:"thread"`
 	Label  string `json:"label"`
@@ -120,7 +129,7 @@ type World struct {
 	envEpoch int
 	stepBudget int
 	chooseLog [][2]string
-	resumes   []string
+	resumes   []ResumeEv
 	nAsserts  int
 	witnessModel map[string]string
 	strVars map[string]*strVarInfo
@@ -449,6 +458,7 @@ func (w *World) run() {
 			// threads in creation order (reduction R1: context switches are explored at yields only)
 			t = en[0]
 		}
+		wasLazy := t.lazy
 		if t.lazy {
 			t.lazy = false
 			t.lazyOps = false
@@ -460,7 +470,18 @@ func (w *World) run() {
 		t.waitCh, t.waitTm, t.waitMu = nil, nil, nil
 		t.yielded = false
 		if t.yieldAt != "" && t.yieldAt != "quiesce" {
-			w.resumes = append(w.resumes, t.yieldAt)
+			ev := ResumeEv{Label: t.yieldAt, Lazy: wasLazy, At: -1}
+			if n, ok := w.now.(int64); ok {
+				ev.At = n - epochNs
+			}
+			if wasLazy {
+				for _, o := range w.threads {
+					if o != t && !o.done && o.yieldAt != "" && o.yieldAt != "quiesce" && !o.lazy {
+						ev.Parked = append(ev.Parked, o.yieldAt)
+					}
+				}
+			}
+			w.resumes = append(w.resumes, ev)
 		}
 		t.yieldAt = ""
 		t.lowPrio = false
